@@ -109,6 +109,14 @@ func (s *ChattyStrategy) kernel(ctx context.Context) {
 		prevNextRoundView = *u.NextRound
 	}
 
+	if u.NilVotedRound != nil {
+		// The first update may already report a round that ended in a nil commit;
+		// as in the loop below, its precommits must be shared.
+		if !s.broadcastPrecommits(ctx, *u.NilVotedRound) {
+			return
+		}
+	}
+
 	for {
 		select {
 		case <-ctx.Done():
